@@ -187,7 +187,7 @@ func kfDuration(args []KeyBuilderStage) (KeyBuilderStage, error) {
 			return ErrorParsing
 		}
 
-		return strconv.FormatInt(int64(duration.Seconds()), 10)
+		return strconv.FormatInt(int64(duration/time.Second), 10)
 	}), nil
 }
 
